@@ -133,13 +133,17 @@ func (s *Stream) StreamID() uint32 {
 * if current's size is not enough, which will block until the read buffer's size greater than minSize.
  */
 func (s *Stream) readMore(minSize int) (err error) {
+	// read the state before collecting the pending data: everything that preceded
+	// the close is already pending once the state is seen as not open, so
+	// end-of-stream is never reported ahead of data that arrived before the close.
+	isOpen := s.IsOpen()
 	s.pendingData.moveTo(s.recvBuf)
 	recvLen := s.recvBuf.Len()
 	if recvLen >= minSize {
 		return nil
 	}
 
-	if recvLen == 0 && !s.IsOpen() {
+	if recvLen == 0 && !isOpen {
 		return ErrEndOfStream
 	}
 
